@@ -17,6 +17,7 @@ import (
 	"context"
 	"fmt"
 	"io"
+	"log"
 	"log/slog"
 	"net/http"
 	"net/http/httptest"
@@ -38,6 +39,7 @@ type rCase struct {
 	Kind   string   `json:"kind"` // "R"
 	Check  bool     `json:"check"`
 	Comp   bool     `json:"compiled"` // router.WithRouteCompilation(true)
+	Wire   bool     `json:"wire"`     // serve through a real HTTP server (httptest.Server) instead of calling ServeHTTP
 	App    bool     `json:"app"`
 	Wrap   bool     `json:"wrap"`   // a timeout middleware with a 1h budget right after recovery
 	Global int      `json:"global"` // how many of the handlers are Use()d; app: how many are WithBefore
@@ -82,7 +84,7 @@ func buildR(c rCase) (*cx.World, error) {
 }
 
 func emitR(id string, c rCase, st *hx.Stats) string {
-	l := hx.NewLine(id).Tok("R").Bool(c.Check).Bool(c.Comp).Bool(c.Wrap).Nat(c.Global)
+	l := hx.NewLine(id).Tok("R").Bool(c.Check).Bool(c.Comp).Bool(c.Wire).Bool(c.Wrap).Nat(c.Global)
 	cx.EncBeh(l, c.Chain)
 	in := l.String()
 	l.Sep()
@@ -92,11 +94,21 @@ func emitR(id string, c rCase, st *hx.Stats) string {
 	}
 	main := cx.Target{Path: []int{1}, Ver: -1}
 	ok := cx.Target{Path: []int{2}, Ver: -1}
-	res := w.Serve(main, &cx.ReqState{Beh: cx.BehMap(c.Chain)})
+	serve := w.Serve
+	if c.Wire {
+		// the real thing: net/http server loop, real connection; the process must survive and the
+		// follow-ups travel over the same keep-alive client
+		srv := httptest.NewUnstartedServer(w.Routers[0])
+		srv.Config.ErrorLog = log.New(io.Discard, "", 0)
+		srv.Start()
+		defer srv.Close()
+		serve = func(t cx.Target, st *cx.ReqState) cx.Result { return w.ServeWire(srv, t, st) }
+	}
+	res := serve(main, &cx.ReqState{Beh: cx.BehMap(c.Chain)})
 	cx.EncResult(l, res)
 	// follow-ups on the same router: the same route with every handler passing through, then a plain route
-	f1 := w.Serve(main, &cx.ReqState{Probe: true})
-	f2 := w.Serve(ok, &cx.ReqState{Beh: map[int][]cx.Act{okHid: {{K: "W"}}}})
+	f1 := serve(main, &cx.ReqState{Probe: true})
+	f2 := serve(ok, &cx.ReqState{Beh: map[int][]cx.Act{okHid: {{K: "W"}}}})
 	l.Nat(2)
 	cx.EncResult(l, f1)
 	cx.EncResult(l, f2)
@@ -119,6 +131,9 @@ func emitR(id string, c rCase, st *hx.Stats) string {
 		}
 		if c.Comp {
 			st.Count("R_route_compilation_on")
+		}
+		if c.Wire {
+			st.Count("R_through_real_http_server")
 		}
 		if res.Escaped >= 0 {
 			st.Count("R_panic_escaped")
@@ -221,8 +236,9 @@ func genR(r *hx.Rand, st *hx.Stats) rCase {
 		}
 		// Global doubles as "how many go through app.Use"; the WithBefore share is what remains
 	}
+	c.Wire = r.Chance(1, 8)
 	plain := [][]cx.Act{a("N"), a("N"), a("N"), a("W", "N"), a("N", "W"), a("N", "N"), a(), {{K: "K", Body: a("N")}}}
-	if !c.Wrap {
+	if !c.Wrap && !c.Wire { // cancelling the request context is not a deterministic act over a real connection
 		plain = append(plain, a("C", "N"), a("A", "N"))
 	}
 	for i := 0; i < n; i++ {
@@ -571,6 +587,8 @@ func fixedR() []rCase {
 		{Kind: "R", Check: true, Chain: []cx.Beh{{H: 1, Acts: []cx.Act{p(1)}}, {H: 2, Acts: a("W")}}},
 		// the same through the app's default middleware
 		{Kind: "R", Check: true, App: true, Chain: []cx.Beh{{H: 1, Acts: []cx.Act{p(2)}}, {H: 2, Acts: []cx.Act{p(4)}}}},
+		// through a real HTTP server
+		{Kind: "R", Check: true, Wire: true, Chain: []cx.Beh{{H: 1, Acts: []cx.Act{p(4)}}, {H: 2, Acts: []cx.Act{p(1)}}}},
 		// panic after the response was started
 		{Kind: "R", Check: true, Global: 1, Chain: []cx.Beh{{H: 1, Acts: a("N")}, {H: 2, Acts: []cx.Act{{K: "W"}, p(3)}}}},
 		// through the timeout middleware's goroutine
